@@ -75,7 +75,19 @@ func (g *sgen) schema(d int, allowRef bool) O {
 		}
 		return s
 	case 6:
-		return O{"allOf": A{g.schema(d+1, true)}}
+		s := O{"allOf": A{g.schema(d+1, true)}}
+		if g.Pct(30) {
+			s["allOf"] = A{g.schema(d+1, true), g.schema(d+1, true)}
+		}
+		if g.Pct(20) {
+			if g.Bool() {
+				s["additionalProperties"] = true
+			} else {
+				s["additionalProperties"] = g.schema(d+1, true)
+			}
+			g.Label("allOf+additionalProperties")
+		}
+		return s
 	case 7:
 		return O{"type": "array", "items": g.schema(d+1, true)}
 	case 8:
